@@ -11,6 +11,8 @@ def impl_canon(r):
         return ('panic', r['panic'])
     if 'abort' in r:
         return ('abort', r['abort'])
+    if 'hang' in r:
+        return ('hang', r['hang'])
     if 'err' in r:
         return ('err', r['err'])
     pd = r['ok']
